@@ -216,10 +216,13 @@ func (c *fnCtx) function() {
 			}
 		}
 	}
+	okLits := c.allowedLits(c.body)
 	ast.Inspect(c.body, func(n ast.Node) bool {
 		switch v := n.(type) {
 		case *ast.FuncLit:
-			c.lostAt(v, "function literal")
+			if !okLits[v] {
+				c.lostAt(v, "function literal (only as an argument of a translated function or of a declared external function)")
+			}
 		case *ast.GoStmt, *ast.DeferStmt, *ast.SelectStmt, *ast.SendStmt, *ast.TypeSwitchStmt, *ast.LabeledStmt:
 			c.lostAt(n, "statement %T", n)
 		case *ast.AssignStmt:
@@ -293,7 +296,7 @@ func (c *fnCtx) function() {
 			}
 			if cal := c.g.calleeOf(fn, v); cal != nil {
 				for _, e := range cal.extras {
-					if strings.HasPrefix(e.key, "eqb:") {
+					if strings.HasPrefix(e.key, "eqb:") || strings.HasPrefix(e.key, "cmp:") {
 						continue // passed when the call is translated (the type argument may differ)
 					}
 					needExtras = append(needExtras, [2]string{e.key, e.name})
@@ -427,6 +430,11 @@ func (c *fnCtx) function() {
 			if t.k == "func" && len(t.res) == 0 {
 				continue // called for effect only: its calls are the log
 			}
+			if t.k == "func" && fn.monadicParams[len(fn.params)-1] {
+				u := *t
+				u.monadic = true // it receives a function literal somewhere: called through the res monad
+				t = &u
+			}
 			if n.Name == "_" {
 				c.lostAt(f, "blank parameter")
 			}
@@ -494,6 +502,8 @@ func (c *fnCtx) function() {
 				rt := t
 				if u := usage["#ret"+strconv.Itoa(slot)]; t.k == "slice" && t.elem.k != "slice" && u != nil && u.view {
 					rt = tyView
+				} else if t.k == "slice" && t.elem.k != "slice" && u != nil && u.mixed {
+					rt = &fnType{k: "sres", elem: t.elem} // an argument on one path, a new slice on another
 				}
 				fn.results = append(fn.results, rt)
 				if len(f.Names) > 0 {
@@ -578,7 +588,7 @@ func (c *fnCtx) zeroOf(t *fnType, at ast.Node) string {
 
 // ---- how slice parameters are used: indexed (elements needed), re-sliced into a result (view
 // needed), stored into (returned updated).  "#ret<k>" -> result slot k is a view of a parameter.
-type sliceUse struct{ elems, view, stored bool }
+type sliceUse struct{ elems, view, stored, mixed bool }
 
 func (c *fnCtx) sliceUsage(fd *ast.FuncDecl) map[string]*sliceUse {
 	use := map[string]*sliceUse{}
@@ -689,6 +699,12 @@ func (c *fnCtx) sliceUsage(fd *ast.FuncDecl) map[string]*sliceUse {
 					if id, ok := r.(*ast.Ident); ok && id.Name == "nil" {
 						continue
 					}
+					if call, ok := r.(*ast.CallExpr); ok {
+						if cal := c.g.calleeOf(c.fn, call); cal != nil && len(cal.results) == 1 && cal.results[0].k == "sres" {
+							retRooted[i] = 3 // handed through
+							continue
+						}
+					}
 					k := 2
 					if rooted {
 						k = 1
@@ -759,7 +775,7 @@ func (c *fnCtx) sliceUsage(fd *ast.FuncDecl) map[string]*sliceUse {
 		case 1:
 			use["#ret"+strconv.Itoa(i)] = &sliceUse{view: true}
 		case 3:
-			c.lostAt(fd, "result %d (sometimes a slice of a parameter, sometimes not)", i)
+			use["#ret"+strconv.Itoa(i)] = &sliceUse{mixed: true}
 		}
 	}
 	return use
@@ -819,6 +835,8 @@ func (t *fnType) mentionsT(set map[string]bool) {
 		}
 	case "obj":
 		set[t.name] = true
+	case "ptr", "sres":
+		t.elem.mentionsT(set)
 	case "map":
 		t.key.mentionsT(set)
 		t.elem.mentionsT(set)
@@ -1134,6 +1152,10 @@ func (c *fnCtx) effects(nodes ...ast.Node) effSet {
 					for _, e := range cal.extras {
 						if strings.HasPrefix(e.key, "eqb:") {
 							rd(c.mapEqbVar(&fnType{k: "map", key: substT(&fnType{k: "elem", name: strings.TrimPrefix(e.key, "eqb:")}, sub)}))
+							continue
+						}
+						if strings.HasPrefix(e.key, "cmp:") {
+							rd(c.cmpVar(&fnType{k: "elem", name: strings.TrimPrefix(e.key, "cmp:"), ordered: true}))
 							continue
 						}
 						rd(c.extras[e.key])
@@ -1626,6 +1648,9 @@ func (c *fnCtx) binary(v *ast.BinaryExpr, pre *[]fnBind) (string, *fnType) {
 			s = "(Bool.eqb " + x + " " + y + ")"
 		case xt.k == "string" && yt.k == "string":
 			s = "(str_eqb " + x + " " + y + ")"
+		case xt.k == "elem" && yt.k == "elem" && xt.name == yt.name:
+			// == on a comparable type parameter: the function argument eqb_<T>
+			s = "(" + c.mapEqbVar(&fnType{k: "map", key: xt}).name + " " + x + " " + y + ")"
 		default:
 			c.lostAt(v, "equality of %s values", xt.k)
 		}
